@@ -634,9 +634,9 @@ def run_xmlwf(ctx, docs):
             res = xc.parse_both(m)
             ctx.count('xmlwf_model_accepts')
             if not res['ok']:
-                # lxml and expat are namespace-aware; the recogniser is plain XML 1.0: an undeclared prefix or a bad
-                # namespace URI is not a well-formedness error of XML 1.0
-                ns_l = res['lxml_err'] is not None and re.search(r'Namespace|xmlns|URI', res['lxml_err'])
+                # lxml and expat are namespace-aware; the recogniser is plain XML 1.0: an undeclared prefix, a bad
+                # namespace URI or a name that is not a QName (xml:0lang, a:b:c) is not a well-formedness error of XML 1.0
+                ns_l = res['lxml_err'] is not None and re.search(r'Namespace|xmlns|URI|QName', res['lxml_err'])
                 ns_d = res['lxml_err'] is None and 'prefix' in (res['dom_err'] or '')
                 if ns_l or ns_d:
                     ctx.count('xmlwf_namespace_only_rejections')
